@@ -127,6 +127,14 @@ def gen_rule(rng, lo_month, hi_month, allow_forms=("M", "M", "M", "J", "N")):
     k = rng.choice(allow_forms)
     t = rng.choice([7200, 7200, 3600, 0, 10800, 1800, 5400, 86400, 82800,
                     9000, 7200, 3600, 7230, 3615, 45])
+    if lo_month <= 2 <= hi_month and rng.random() < 0.08:
+        # the end of February: the last <weekday> of February where 29
+        # February is that weekday (2000, 1972, 2400: Tuesday; 2024:
+        # Thursday; 2004: Sunday), and the year days around the leap day
+        if rng.random() < 0.5:
+            return ["M", 2, 5, rng.choice([2, 2, 4, 0]), t]
+        n = rng.choice([58, 59, 59, 60])
+        return ["J", n + 1, t] if rng.random() < 0.4 else ["N", n, t]
     if k == "M":
         return ["M", rng.randrange(lo_month, hi_month + 1),
                 rng.choice([1, 2, 3, 4, 5]), rng.randrange(7), t]
